@@ -20,6 +20,9 @@ type job struct {
 	Files      map[string]string `json:"files,omitempty"`
 	Dest       string            `json:"dest"`
 	Tags       []string          `json:"tags,omitempty"`
+	// a second package with the same declarations whose import path differs in punctuation only; its
+	// wrapper is generated into the same destination package
+	Sibling *job `json:"sibling,omitempty"`
 }
 
 // helper packages of the generated module (fixed).
@@ -35,7 +38,8 @@ type tyGen struct {
 	own      []string // exported own types usable in type expressions
 	ownUnexp []string
 	used     map[string]bool // import clauses needed
-	rare     int             // 1/rare chance of the exotic choices
+	rare     int             // 1/rare chance of the exotic choices (the classes of the findings still open)
+	odd      int             // 1/odd chance of the unusual shapes that lie inside the domain (repaired findings)
 }
 
 var importClause = map[string]string{
@@ -209,7 +213,8 @@ func constExpr(r *rand.Rand, ownInt, ownUnexpInt string) (typ, expr string) {
 	case 16:
 		return "", pick(r, []string{"true", "false", "1 < 2", "\"a\" == \"b\"", "!true"})
 	case 17:
-		return "", pick(r, []string{"1i", "1 + 2i", "0.1i", "-3.5 + 0x1p-3i", "1e400i", "(1 + 2i) * (3 - 1i)", "2i * 2i"})
+		return "", pick(r, []string{"1i", "1 + 2i", "0.1i", "-3.5 + 0x1p-3i", "1e400i", "(1 + 2i) * (3 - 1i)", "2i * 2i", "0i", "1<<2000 + 1i",
+			"0x1p-5000 - 0x1p4000i", "1e400 + 1e-400i", "0.5i", "-2.25 - 1024i", "1.0 / 3 + 2i", "1e1233i * 1e-1233"})
 	case 18:
 		return "int8", fmt.Sprint(r.Intn(256) - 128)
 	case 19:
@@ -266,8 +271,11 @@ func (g *tyGen) params(n int, style int, variadic bool) string {
 	// style: 0 unnamed, 1 named, 2 named with a blank, 3 grouped names
 	var ps []string
 	names := []string{"a", "b", "c", "d", "e"}
-	if g.r.Intn(g.rare*2) == 0 {
+	switch g.r.Intn(g.odd * 3) {
+	case 0:
 		names = []string{"W", "io", "a0", "tpl", "reflect"}
+	case 1:
+		names = []string{"a1", "a0", "W", "a0_", "_"}
 	}
 	for i := 0; i < n; i++ {
 		t := g.typ(2)
@@ -305,7 +313,7 @@ func (g *tyGen) results(n int, named int) string {
 	default:
 		names := []string{"r", "err", "n", "ok"}
 		if named == 2 {
-			names = []string{"a0", "_", "a1", "W"}
+			names = [][]string{{"a0", "_", "a1", "W"}, {"W", "r0", "a2", "_"}, {"a1_", "a0", "W", "r0"}}[g.r.Intn(3)]
 		}
 		ts := make([]string, n)
 		for i := range ts {
@@ -324,7 +332,7 @@ func (g *tyGen) signature() string {
 	case 0, 1, 2:
 		style = 0
 	case 3:
-		if r.Intn(g.rare) == 0 {
+		if r.Intn(g.odd) == 0 {
 			style = 2
 		}
 	}
@@ -334,7 +342,7 @@ func (g *tyGen) signature() string {
 	case 0, 1:
 		named = 1
 	case 2:
-		if style == 0 && r.Intn(g.rare) == 0 {
+		if style == 0 && r.Intn(g.odd) == 0 {
 			named = 2
 		}
 	}
@@ -352,27 +360,29 @@ func genPackage(r *rand.Rand, idx int) job {
 	}
 	dirs := []string{"p%04d", "a-b/p%04d", "x.y/q%04d", "t~z/p%04d", "under_score/p%04d", "deep/er/path/p%04d", "go-pkg%04d", "v2/p%04d", "UP/Per%04d", "d-.~_/p%04d"}
 	dir := fmt.Sprintf(dirs[r.Intn(len(dirs))], idx)
-	if exotic && r.Intn(12) == 0 {
-		dir = fmt.Sprintf("c++/p%04d", idx)
+	if r.Intn(15) == 0 {
+		// legal in import paths, not in identifiers
+		dir = fmt.Sprintf(pick(r, []string{"c++/p%04d", "a+b/p%04d", "x+/q%04d+"}), idx)
 	}
 	name := dir[strings.LastIndex(dir, "/")+1:]
-	name = strings.NewReplacer("-", "", ".", "", "~", "").Replace(name)
+	name = strings.NewReplacer("-", "", ".", "", "~", "", "+", "").Replace(name)
 	switch r.Intn(25) {
 	case 0, 3:
 		name = "pkg"
 	case 1:
-		if exotic {
-			name = "os"
-		}
+		name = "os"
 	case 2:
+		name = "log"
+	case 4:
 		if exotic {
-			name = "log"
+			// called like one of the packages a wrapper file imports for itself (open finding)
+			name = pick(r, []string{"constant", "token", "reflect"})
 		}
 	}
 	ng := &nameGen{r: r, used: map[string]bool{}}
-	g := &tyGen{r: r, used: map[string]bool{}, rare: rare}
+	g := &tyGen{r: r, used: map[string]bool{}, rare: rare, odd: 5}
 	var b strings.Builder
-	if exotic && r.Intn(10) == 0 {
+	if r.Intn(20) == 0 {
 		// a package of constants only (plus unexported helpers)
 		fmt.Fprintf(&b, "package %s\n\nconst (\n", name)
 		for i := 1 + r.Intn(6); i > 0; i-- {
@@ -444,9 +454,6 @@ func genPackage(r *rand.Rand, idx int) job {
 		n := ng.fresh("I", exported)
 		var ms []string
 		k := r.Intn(40)
-		if !exotic && (k == 1 || k == 4 || k == 5 || k == 6) {
-			k = 10
-		}
 		switch {
 		case k == 0:
 			// nothing: the empty interface
@@ -470,8 +477,8 @@ func genPackage(r *rand.Rand, idx int) job {
 				case q == 0:
 					ms = append(ms, "String() string")
 				case q == 1:
-					if r.Intn(rare) == 0 {
-						ms = append(ms, pick(r, []string{"String() (string, error)", "String(x int) string", "String()", "String() []byte"}))
+					if r.Intn(g.odd) < 3 {
+						ms = append(ms, pick(r, []string{"String() (string, error)", "String(x int) string", "String()", "String() []byte", "String() Str", "String(...string) string", "String() int", "String() rune", "String() any", "String() *string"}))
 					} else {
 						ms = append(ms, "Error() string")
 					}
@@ -509,6 +516,12 @@ func genPackage(r *rand.Rand, idx int) job {
 				out = append(out, m)
 			}
 			ms = out
+		}
+		for _, m := range ms {
+			if strings.HasSuffix(m, " Str") && !ng.used["Str"] {
+				ng.used["Str"] = true
+				decls = append(decls, "type Str string\n")
+			}
 		}
 		decls = append(decls, fmt.Sprintf("type %s interface {\n\t%s\n}\n", n, strings.Join(ms, "\n\t")))
 		usable := true
@@ -574,6 +587,9 @@ func genPackage(r *rand.Rand, idx int) job {
 	}
 
 	// packages named os / log: the names the extractor treats specially
+	if name == "constant" || name == "token" {
+		decls = append(decls, fmt.Sprintf("const %s = %d\n", ng.fresh("Lit", true), r.Intn(100)))
+	}
 	if name == "os" || name == "log" {
 		for _, fn := range []string{"Exit", "FindProcess", "Fatal", "Fatalf", "Fatalln", "New"} {
 			if r.Intn(2) == 0 && !ng.used[fn] {
@@ -617,6 +633,14 @@ func genPackage(r *rand.Rand, idx int) job {
 		Dest: pick(r, []string{"stdlib", "symbols", "lib", "main"})}
 	if r.Intn(10) == 0 {
 		j.Mode = "relative" // in the domain unless an interface mentions a type of the package itself
+	} else if exotic && strings.ContainsAny(dir, "-.~+") && r.Intn(3) == 0 {
+		// a sibling: the same package under an import path that differs in punctuation only (open finding:
+		// the two wrappers declare the same wrapper type names)
+		k := strings.IndexAny(dir, "-.~+")
+		sd := dir[:k] + pick(r, []string{"+", "-", ".", "~", "_"}) + dir[k+1:]
+		if sd != dir {
+			j.Sibling = &job{Mode: "module", Dir: sd, ImportPath: "gen.test/" + sd, Files: j.Files, Dest: j.Dest}
+		}
 	}
 	for n := r.Intn(3); n > 0; n-- {
 		j.Tags = append(j.Tags, pick(r, []string{"foo", "bar", "", "!windows", "linux"}))
